@@ -177,13 +177,27 @@ Inductive eop :=
 | ESelfCopy (t : bool) | ESelfMove (t : bool)
 | EDefault (t : bool).               (* d : x = X() *)
 
+(* optional<T&>: objects a, b of optional<T&> (T possibly const), z of optional<T0&> (T0 = T without
+   const), a source src of optional<T0>, three referent cells.  What an optional<T&> refers to: *)
+Inductive rtgt :=
+| RCell (c : nat)                    (* one of the referent cells *)
+| RSrc.                              (* the object contained in src *)
+
 Inductive rop :=
 | RBind (t : bool) (c : nat)         (* a, e, j : x = cell / x.emplace(cell) / x = O(cell) *)
 | RNull (t : bool)                   (* n, r *)
 | RCopy (t : bool)                   (* c, m, k : x = y (trivially copyable) *)
 | RSwap                              (* s : swap(_ptr, rhs._ptr) *)
-| RWrite (t : bool) (v : Z)          (* w : if (x) *x = v *)
-| RSelf (t : bool).                  (* f *)
+| RWrite (t : bool) (v : Z)          (* w : if (x) *x = v   (T not const) *)
+| RSelf (t : bool)                   (* f *)
+| RCellSet (c : nat) (v : Z)         (* W : cells[c] = v, not through any optional *)
+| RFromOpt (t : bool)                (* o : x = O(as_const(src)) : optional<T&>(optional<U> const&), U = T0 *)
+| RFromRef (t : bool)                (* x : x = O(as_const(z))   : optional<T&>(optional<U> const&), U = T0& *)
+| RZBind (c : nat)                   (* z : z = cell *)
+| RZNull                             (* Z : z.reset() *)
+| RSrcAssign (v : Z)                 (* S : src = T0(v) *)
+| RSrcEmplace (v : Z)                (* E : src.emplace(v) *)
+| RSrcReset.                         (* R : src.reset() *)
 
 (* unexpected<E>: objects a, b of unexpected<E> and c of unexpected<E2> *)
 Inductive uop :=
